@@ -16,6 +16,8 @@ yielding (stepnet `release_burst`): a frame — or several — and the end of st
 behind it.  The `_ProcessReply` greenlets of those frames, which `_Shutdown` does not kill, then run
 after the `_Shutdown`.  Every response a request's sink stack is ever handed is logged (LogStack), so a
 request completed twice shows as two entries of `dels`."""
+import json
+import zlib
 import itertools
 from struct import pack, unpack
 
@@ -86,7 +88,7 @@ class Base(object):
     def __init__(self):
         import stepnet
         from scales.varz import VarzSocketWrapper
-        self.sock = stepnet.StepSocket('h', 1)
+        self.sock = stepnet.real_socket('h', 1)
         self.wrapped = VarzSocketWrapper(self.sock, 'svc')
         self.LogStack = _mk_stack_class()
         self.dels = []
@@ -406,6 +408,13 @@ class MuxT(Base):
 def run_script(script):
     import rt  # noqa
     drv = Serial() if script['t'] == 'serial' else MuxT()
+    # end of stream on a block boundary, or after part of the block (explicit flag, else derived from the script)
+    eof_mid = script.get('eofmid')
+    if eof_mid is None:
+        eof_mid = bool(zlib.crc32(json.dumps(script['ops'], sort_keys=True).encode()) & 1)
+    drv.sock.eof_mid = bool(eof_mid)
+    if eof_mid and 'eof' in json.dumps(script['ops']):
+        drv.tags.add('eof-mid-block')
     for op in script['ops']:
         drv.snap()
         text = drv.apply(op)
